@@ -27,6 +27,7 @@ func c18Layouts(tier string) []c18Layout {
 		{"memory shared, distinct prefixes", []world.FilterSpec{f("a", "pa", "", 0, 0), f("b", "pb", "", 0, 0)}},
 		{"one redis, distinct prefixes, different timeouts", []world.FilterSpec{f("a", "pa", "r1", 3600, 600), f("b", "pb", "r1", 100, 50)}},
 		{"two redis servers, distinct prefixes", []world.FilterSpec{f("a", "pa", "r1", 3600, 0), f("b", "pb", "r2", 100, 0)}},
+		{"one redis server, two databases", []world.FilterSpec{f("a", "pa", "r1/0", 3600, 0), f("b", "pb", "r1/1", 100, 50)}},
 	}
 	if tier == "thorough" {
 		ls = append(ls,
@@ -121,8 +122,8 @@ func c18Model(run *ev.Run, layout c18Layout) seqx.Model {
 				}
 				// effective expiry of the new session (Redis: TTL is observable)
 				if f.Redis != "" {
-					mr := s.sw.Redis[f.Redis]
-					ttl := mr.TTL(sid)
+					rn, rdb := world.RedisNameDB(f.Redis)
+					ttl := s.sw.Redis[rn].DB(rdb).TTL(sid)
 					want := time.Duration(0)
 					switch {
 					case f.Abs > 0 && f.Idle > 0:
@@ -137,7 +138,16 @@ func c18Model(run *ev.Run, layout c18Layout) seqx.Model {
 						diff = -diff
 					}
 					if diff > 3*time.Second {
-						run.Violation(fmt.Sprintf("C18 session-governed-by-other-filters-timeouts filter=%s store=redis", f.Name),
+						shared := "same-uri-as-another-filter"
+						for k, o := range layout.Filters {
+							_ = k
+							if o.Name != f.Name && o.Redis == f.Redis {
+								shared = "same-uri-as-another-filter"
+								break
+							}
+							shared = "own-uri"
+						}
+						run.Violation(fmt.Sprintf("C18 session-governed-by-other-filters-timeouts filter=%s store=redis %s", f.Name, shared),
 							fmt.Sprintf("session of filter %s (absolute=%ds idle=%ds) has TTL %v in Redis, expected about %v: another filter's time-outs govern it", f.Name, f.Abs, f.Idle, ttl, want), full)
 					}
 				}
@@ -179,7 +189,11 @@ func c18Model(run *ev.Run, layout c18Layout) seqx.Model {
 						store = "redis"
 					}
 					samePrefix := fi.CookiePrefix == fj.CookiePrefix
-					run.Violation(fmt.Sprintf("C18 honour store=%s via=%s same-cookie-name=%v", store, e.Arg, samePrefix),
+					cfgStore := "same"
+					if fi.Redis != fj.Redis {
+						cfgStore = "different"
+					}
+					run.Violation(fmt.Sprintf("C18 honour store=%s via=%s same-cookie-name=%v configured-stores=%s", store, e.Arg, samePrefix, cfgStore),
 						fmt.Sprintf("a session created through filter %s is answered OK by filter %s (cookie %s); forwarded tokens were issued by realm %s",
 							fi.Name, fj.Name, e.Arg, s.forwardedIssuer(res)), full)
 				}
@@ -222,7 +236,8 @@ func c18Model(run *ev.Run, layout c18Layout) seqx.Model {
 				if ok {
 					// is the session still present in its store?
 					if f.Redis != "" {
-						alive = s.sw.Redis[f.Redis].Exists(se[0])
+						rn, rdb := world.RedisNameDB(f.Redis)
+						alive = s.sw.Redis[rn].DB(rdb).Exists(se[0])
 					} else {
 						alive = true // memory: not observable without a request; probes do not remove fresh sessions
 					}
